@@ -9,11 +9,7 @@ def split_lines(text: str) -> list:
     Splits given text by line breaks. Unlike `str.splitlines()`, only CR, LF and
     CRLF separate lines: form feed, NEL, U+2028 etc. are ordinary characters
     """
-    lines = re_newline.split(text)
-    if lines[-1] == '':
-        # Same as in `str.splitlines()`: trailing line break does not open a new line
-        lines.pop()
-    return lines
+    return re_newline.split(text)
 
 expression_start = '{'
 expression_end = '}'
